@@ -337,6 +337,24 @@ where
             incomplete = true;
         }
     }
+    // the same script read back by the decoder is a second library-labelled object (key hashes
+    // become raw-pkh leaves with their own leaf constructor): its label is held to the same standard
+    if !control {
+        let dec = guarded(std::panic::AssertUnwindSafe(|| {
+            Miniscript::<Ctx::Key, Ctx>::decode_with_validation_params(bitcoin::Script::from_bytes(&script), &miniscript::ValidationParams::MAX).ok().map(|d| d.ty)
+        }));
+        if let Ok(Some(dty)) = dec {
+            if dty != ms.ty {
+                let fired = judge::<Ctx>(cx, frag, world, rep, case, scfg, Some(&move |t: &mut Type| *t = dty), from_ast);
+                for k in fired {
+                    rep.violation(case, format!("C06:decoded-label:{}:{}", k, cx.name()), format!("{} [{}]: the decoder labels the script {} as {} (the parser says {}), and execution refutes the decoder's '{}' claim", s, cx.name(), hex(&script), dty, ms.ty, k));
+                }
+                rep.count("decoded-object-has-another-label(checked)");
+            } else {
+                rep.count("decoded-object-has-the-same-label");
+            }
+        }
+    }
     let mut fired: Vec<String> = viol.iter().map(|(k, _)| k.clone()).collect();
     if control {
         if ty.corr.dissatisfiable && matches!(base, LBase::B | LBase::W) && total.sigfree_dissat == 0 && !incomplete {
